@@ -444,15 +444,10 @@ func (c *Ctx) ruleE2(rule string) {
 		x := c.Index(f)
 		a, b := f.Params[0], f.Params[1]
 		// zero-divisor tests: `b.Acc() == 0` ; mark = its false edge
-		zeroTests := map[*ssa.BasicBlock]string{}
-		for _, blk := range f.Blocks {
-			iff, ok := blk.Instrs[len(blk.Instrs)-1].(*ssa.If)
-			if !ok {
-				continue
-			}
-			bo, ok := iff.Cond.(*ssa.BinOp)
+		zeroTestOf := func(cond ssa.Value) (string, bool) {
+			bo, ok := cond.(*ssa.BinOp)
 			if !ok || bo.Op != token.EQL {
-				continue
+				return "", false
 			}
 			p, cls, _ := x.operandOf(bo.X)
 			isZero := false
@@ -464,7 +459,15 @@ func (c *Ctx) ruleE2(rule string) {
 					isZero = true
 				}
 			}
-			if p == b && isZero {
+			return cls, p == b && isZero
+		}
+		zeroTests := map[*ssa.BasicBlock]string{}
+		for _, blk := range f.Blocks {
+			iff, ok := blk.Instrs[len(blk.Instrs)-1].(*ssa.If)
+			if !ok {
+				continue
+			}
+			if cls, is := zeroTestOf(iff.Cond); is {
 				zeroTests[blk] = cls
 			}
 		}
@@ -474,6 +477,15 @@ func (c *Ctx) ruleE2(rule string) {
 			for _, kb := range allKinds {
 				env := &kenv{x: x, kindOf: map[ssa.Value]string{a: ka, b: kb}}
 				var testedCls string
+				// the test may first be put into a bool variable (`zero := b.Int() == 0` in a
+				// helper): at the branch on that variable it is the same test
+				env.condMark = func(cond ssa.Value, succ int) bool {
+					if cls, is := zeroTestOf(cond); is && succ == 1 {
+						testedCls = cls
+						return true
+					}
+					return false
+				}
 				reach := env.explore(f, kindConst, func(blk *ssa.BasicBlock, succ int) bool {
 					if cls, ok := zeroTests[blk]; ok && succ == 1 {
 						testedCls = cls
